@@ -262,7 +262,7 @@ func decode(doc []byte, srcpat, rbufpat []int) string {
 
 // ahead does at most nreads Reads, lets the decoder's goroutine run until it returns or parks in its
 // next Write, and reports how much of the source has been consumed by then.
-func ahead(doc []byte, srcpat, rbufpat []int, nreads int) string {
+func ahead(doc []byte, srcpat, rbufpat []int, nreads int, need int64) string {
 	base, bw0 := runtime.NumGoroutine(), blockedWriters()
 	src := &chunkReader{rem: doc, pat: srcpat}
 	type res struct{ s string }
@@ -295,7 +295,15 @@ func ahead(doc []byte, srcpat, rbufpat []int, nreads int) string {
 	select {
 	case r := <-ch:
 		settle(base, bw0)
-		return r.s + " c=" + strconv.FormatInt(atomic.LoadInt64(&src.consumed), 10)
+		c := atomic.LoadInt64(&src.consumed)
+		if need >= 0 {
+			// greedy source: the tokenizer asks for at most 64 KiB at a time
+			if c > need+3*65536 {
+				return r.s + " c=over:" + strconv.FormatInt(c, 10)
+			}
+			return r.s + " c=ok"
+		}
+		return r.s + " c=" + strconv.FormatInt(c, 10)
 	case <-time.After(20 * time.Second):
 		hung = true
 		return "!hang"
@@ -433,7 +441,7 @@ func main() {
 		case "dec", "dec0", "mon", "lazy":
 			// dec/mon <srcpat> <rbufpat> <doc> <hex>...
 			pi = 3
-		case "ahead":
+		case "ahead", "aheadg":
 			pi = 4
 		case "tok", "strict":
 			pi = 1
@@ -484,7 +492,9 @@ func main() {
 		case "dec", "dec0":
 			return decode(p, ints(a[1]), ints(a[2]))
 		case "ahead":
-			return ahead(p, ints(a[1]), ints(a[2]), atoi(a[3]))
+			return ahead(p, ints(a[1]), ints(a[2]), atoi(a[3]), -1)
+		case "aheadg":
+			return ahead(p, nil, ints(a[1]), atoi(a[2]), int64(atoi(a[3])))
 		case "tok":
 			return tokens(p)
 		case "unesc":
